@@ -9,7 +9,7 @@ Open Scope Z_scope.
 Inductive case :=
 | Case (mode : Z) (p : prog) (obs_log : list val) (obs_outcome : outcome) (routes_agree : bool)
 (* MiniJS+ (C01/Full.v): the reference semantics is the model; global code only *)
-| FCase (p : list Full.stmt) (obs_log : list Full.val) (obs_outcome : Full.outcome) (routes_agree : bool).
+| FCase (p : list Full.stmt) (obs_log : list Full.val) (obs_outcome : Full.outcome) (obs_cv : Full.val) (routes_agree : bool).
 
 Definition fval_eqb (a b : Full.val) : bool :=
   match a, b with
@@ -27,8 +27,8 @@ Definition fout_eqb (a b : Full.outcome) : bool :=
   | FThrew v, FThrew w => fval_eqb v w
   | _, _ => false
   end.
-Definition fobs_eqb (a b : list Full.val * Full.outcome) : bool :=
-  list_eqb fval_eqb (fst a) (fst b) && fout_eqb (snd a) (snd b).
+Definition fobs_eqb (a b : list Full.val * Full.outcome * Full.val) : bool :=
+  list_eqb fval_eqb (fst (fst a)) (fst (fst b)) && fout_eqb (snd (fst a)) (snd (fst b)) && fval_eqb (snd a) (snd b).
 Definition fhas_big (l : list Full.val) (o : Full.outcome) : bool :=
   existsb (fun v => fval_eqb v WBig) l || match o with FThrew v => fval_eqb v WBig | _ => false end.
 Definition ffuel : nat := 700.
@@ -81,13 +81,13 @@ Definition verdict (c : case) : Z * Z :=
         judge obs_eqb (lg, oc) (out so, project mode oo) (out ss, project mode os)
               (if wf (SBlock p) then 0 else 1)
       end
-  | FCase p lg oc agree =>
-      let '(ml, mo) := Full.run_program ffuel p in
+  | FCase p lg oc cv agree =>
+      let '(ml, mo, mcv) := Full.run_program_cv ffuel p in
       match mo with
       | FOutOfFuel | FDeclined => declined
       | _ =>
-        if fhas_big ml mo then declined
+        if fhas_big ml mo || fval_eqb mcv WBig then declined
         else if negb agree then (3, 9)
-        else judge fobs_eqb (lg, oc) (ml, mo) (ml, mo) 0
+        else judge fobs_eqb (lg, oc, cv) (ml, mo, mcv) (ml, mo, mcv) 0
       end
   end.
